@@ -17,7 +17,7 @@ PROP = {
     ]],
     "channels": [{"name": "C05", "exe": "oracle_c05"}],
     "trusted_base": [
-        "sender_is_recovered_signer: the model's tx.sender is types.Sender(tx), the address recovered from the signature (ECDSA recovery is a parameter; that the signature binds every signed field is C18's theorem); the harness signs with real keys and reads the sender back through the real recovery",
+        "sender_is_recovered_signer: the model's tx.sender stands for the address recovered from the signature (ECDSA recovery is a parameter; that the signature binds every signed field is C18's theorem). Tie to the code: the Go oracle does not trust types.Sender — it recovers the signer from the serialised bytes on a fresh object (dtx.WireSigner), cross-checks it with the key the generator signed with, and requires the node's reported sender and every debited account to be that signer, or nobody for unrecoverable signature bytes (signatures C05:unsigned-tx-accepted, C05:debited-account-is-not-the-signer, C05:reported-sender-is-not-the-signer), in D-tx and through mempool -> ProposeBlock -> AddBlock on a chainfx world with a funded zero address",
         "results of code outside the model are inputs on the operation line, computed by the harness with the same library calls the validators make: attachments.ParseXxx, crypto.PubKeyBytesToAddress, cid.Parse / cid.Cast, the VRF proof check of long answers, fee.CalculateGas (serialized size), embedded.AvailableContracts membership",
         "contract VM (vm.VM): only the wrapper of applyTxOnState is modelled; IsWasm, ContractAddr, receipt.Success, receipt.GasUsed and the net balance changes of vm.Run are inputs (a fake VM in the harness); VmOk in Props/C04Tx.lean names what C15 has to supply",
         "validators cache answers (IsValidated, IsOnlineIdentity, IsDiscriminated, IsPool, NetworkSize) are read from the real cache built from a committed identity-state tree and passed as registry bits",
